@@ -15,14 +15,14 @@ package kapacitor
 //@     && (q.Len == 0 ==> q.head == q.tail)
 
 //@ func (*CircularQueue[T]).Peek
-//@   props C12 C05
+//@   props C12
 //@   requires qwf(q)
 //@   requires 0 <= i && i < q.Len
 //@   pure
 //@   ensures result == qview(q, i)
 
 //@ func (*CircularQueue[T]).Enqueue
-//@   props C12 C05
+//@   props C12
 //@   requires qwf(q)
 //@   modifies q.head, q.tail, q.Len, q.data, elems(q.data)
 //@   ensures qwf(q)
@@ -31,7 +31,7 @@ package kapacitor
 //@   ensures forall i int :: 0 <= i && i < old(q.Len) ==> qview(q, i) == old(qview(q, i))
 
 //@ func (*CircularQueue[T]).Dequeue
-//@   props C12 C05
+//@   props C12
 //@   requires qwf(q)
 //@   modifies q.head, q.tail, q.Len, elems(q.data)
 //@   ensures qwf(q)
@@ -66,26 +66,26 @@ package kapacitor
 //@   ensures result > now
 
 //@ func (*Query).SetStartTime
-//@   props C16 C05
+//@   props C16
 //@   requires q.startTL != nil
 //@   requires q.groupByTimeDL != nil ==> q.groupByTimeDL.Val != 0
 //@   modifies q.startTL.Val, q.groupByOffsetDL.Val
 //@   ensures q.startTL.Val == s
 
 //@ func (*Query).SetStopTime
-//@   props C16 C05
+//@   props C16
 //@   requires q.stopTL != nil
 //@   modifies q.stopTL.Val
 //@   ensures q.stopTL.Val == s
 
 //@ func (*Query).StartTime
-//@   props C16 C05
+//@   props C16
 //@   requires q.startTL != nil
 //@   pure
 //@   ensures result == q.startTL.Val
 
 //@ func (*Query).StopTime
-//@   props C16 C05
+//@   props C16
 //@   requires q.stopTL != nil
 //@   pure
 //@   ensures result == q.stopTL.Val
@@ -145,7 +145,7 @@ package kapacitor
 // keeping the user's conditions intact": the final condition is either the time range, or
 // user AND time range with the user's expression in an AND-safe position.
 //@ func NewQuery
-//@   props C16 C05
+//@   props C16
 //@   ensures result1 == nil ==> result0 != nil && result0.stmt != nil && result0.startTL != nil && result0.stopTL != nil && result0.startTL != result0.stopTL
 //@   ensures result1 == nil ==> isTimeRange(result0.stmt.Condition, result0) ||
 //@       (typeis(result0.stmt.Condition, *influxql.BinaryExpr) && as(result0.stmt.Condition, *influxql.BinaryExpr).Op == influxql.AND
@@ -182,7 +182,7 @@ package kapacitor
 //@         ite(hiLevel(n, cur, 0, p) != -1, hiLevel(n, cur, 0, p), 0)))
 
 //@ func (*AlertNode).findFirstMatchLevel
-//@   props C01 C05
+//@   props C01
 //@   requires alertNodeOK(n) && 0 <= start && start <= 3 && stop <= 3
 //@   modifies nothing
 //@   ensures result1 ==> int(result0) == hiLevel(n, int(start), max(int(stop), 0), p) && result0 >= 1 && result0 <= start
@@ -193,7 +193,7 @@ package kapacitor
 //@     invariant forall k int :: int(l) < k && k <= int(start) && k >= 1 ==> !levelSat(n, k, p)
 
 //@ func (*AlertNode).determineLevel
-//@   props C01 C05
+//@   props C01
 //@   requires alertNodeOK(n) && 0 <= currentLevel && currentLevel <= 3
 //@   modifies nothing
 //@   ensures int(result) == specLevel(n, int(currentLevel), p)
@@ -216,7 +216,7 @@ package kapacitor
 //@     && (forall i int :: 0 <= i && i < len(a.history) ==> 0 <= a.history[i] && a.history[i] <= 3)
 
 //@ func (*alertState).currentLevel
-//@   props C01 C05
+//@   props C01
 //@   requires alertStateOK(a)
 //@   pure
 //@   ensures result == a.history[a.idx]
@@ -227,7 +227,7 @@ package kapacitor
 //@   ensures time.Time(result) == a.lastTriggered - a.firstTriggered
 
 //@ func (*alertState).percentChange
-//@   props C01 C05
+//@   props C01
 //@   requires alertStateOK(a)
 //@   modifies nothing
 //@   loop 1
@@ -235,7 +235,7 @@ package kapacitor
 //@     invariant 0 <= i && l == len(a.history)
 
 //@ func (*alertState).updateFlapping
-//@   props C01 C05
+//@   props C01
 //@   requires alertStateOK(a)
 //@   modifies a.flapping
 //@   ensures !a.n.a.UseFlapping ==> a.flapping == old(a.flapping)
@@ -243,14 +243,14 @@ package kapacitor
 // "with state-changes-only, only when the level differs from the previous one (or the
 // configured interval has elapsed)": expired is exactly "unchanged and the interval elapsed".
 //@ func (*alertState).updateExpired
-//@   props C01 C05
+//@   props C01
 //@   requires a != nil && a.n != nil && a.n.a != nil && a.n.a.AlertNodeData != nil
 //@   modifies a.expired
 //@   ensures a.expired == (!a.changed && a.n.a.StateChangesOnlyDuration != 0
 //@       && t - a.lastTriggered >= time.Time(a.n.a.StateChangesOnlyDuration))
 
 //@ func (*alertState).addEvent
-//@   props C01 C05
+//@   props C01
 //@   requires alertStateOK(a) && 0 <= level && level <= 3
 //@   modifies a.changed, a.idx, elems(a.history), a.flapping, a.expired
 //@   ensures alertStateOK(a)
@@ -264,7 +264,7 @@ package kapacitor
 // "a duration equal to the time since the ID last left OK": firstTriggered restarts when the
 // previous history entry is OK.
 //@ func (*alertState).triggered
-//@   props C01 C05
+//@   props C01
 //@   requires alertStateOK(a)
 //@   modifies a.lastTriggered, a.firstTriggered
 //@   ensures a.lastTriggered == t
@@ -298,7 +298,7 @@ package kapacitor
 //@     && (a.history[a.idx] != alert.OK || a.changed) && !(a.n.a.NoRecoveriesFlag && a.history[a.idx] == alert.OK)
 
 //@ func (*alertState).Point
-//@   props C01 C05
+//@   props C01
 //@   requires alertStateOK(a) && p != nil
 //@   ensures !called(addEvent) ==> result1 != nil && !called(handleEvent)
 //@   ensures called(addEvent) ==> alertStateOK(a)
